@@ -484,7 +484,13 @@ def failures(res, prop=None):
         if prop is None:
             out.append(ob)
         elif lab:
-            if prop in props_of(lab):
+            owners = set(props_of(lab))
+            # an obligation labelled only with properties this harness does not
+            # serve would never be reported by anybody: it then belongs to every
+            # property the harness serves
+            if not (owners & set(res.spec["props"])):
+                owners = set(res.spec["props"])
+            if prop in owners:
                 out.append(ob)
         else:
             # unlabelled (safety, frame, loop) obligations belong to the
